@@ -353,30 +353,54 @@ def ijepa(prog: Program, rep: Report):
                       None if comp_src else f"'{av}' does not collect the complements returned by _sample_block_mask",
                       None if before else "the encoder masks are sampled before this sample's predictor complements are complete") if x)
     rep.decide(ok, "G9.own-complements", co, "acceptable-regions", why, why, clause="C17.4")
-    # common length
-    for kind in ("pred", "enc"):
-        mins = [(n, var, val) for n, var, val in fa.stores() if val is not None and isinstance(val, ast.Call) and _n(val.func) == "min"
-                and kind in var and _n(val.args[0]) == var]
-        cuts = []
-        for n2 in cfg.nodes:
-            for y in cfg.walk_node(n2):
-                if isinstance(y, ast.Subscript) and isinstance(y.slice, ast.Slice) and y.slice.lower is None and mins \
-                        and _n(y.slice.upper) == mins[0][1]:
-                    cuts.append(n2)
-        upd_ok = False
-        if mins:
-            n1, var, val = mins[0]
-            other = val.args[1] if len(val.args) > 1 else None
-            # min(current, len(mask)) executed for every mask appended: in the same block as the append of that mask
-            mname = _n(other.args[0]) if isinstance(other, ast.Call) and _n(other.func) == "len" and other.args else None
-            apps = [m for m, cc in fa.calls_named("append") if cc.args and _n(cc.args[0]) == mname and fa.conds_at(m) == fa.conds_at(n1)]
-            upd_ok = mname is not None and bool(apps)
-        coll = [n3 for n3, c3 in fa.calls_named("default_collate")]
+    # common length: the running minima are the locals defined as v = min(v, len(<mask>)) (found by dataflow, not by name)
+    minima = []
+    for n1, var, val in fa.stores():
+        if val is not None and isinstance(val, ast.Call) and _n(val.func) == "min" and len(val.args) == 2 and _n(val.args[0]) == var \
+                and isinstance(val.args[1], ast.Call) and _n(val.args[1].func) == "len" and val.args[1].args:
+            minima.append((n1, var, _n(val.args[1].args[0])))
+    coll = [n3 for n3, c3 in fa.calls_named("default_collate")]
+    cut_vars = set()
+    for n2 in cfg.nodes:
+        for y in cfg.walk_node(n2):
+            if isinstance(y, ast.Subscript) and isinstance(y.slice, ast.Slice) and y.slice.lower is None and _n(y.slice.upper) \
+                    and any(cfg.reachable(n2, co_) for co_ in coll):
+                cut_vars.add(_n(y.slice.upper))
+    rep.floor("common cut lengths before collation (one per mask kind)", len(cut_vars), 2)
+    for cv in sorted(cut_vars - {v for _, v, _ in minima}):
+        rep.bad("G9.own-complements", co, f"common-length:unmaintained:{len(cut_vars)}", f"the masks are cut to '{cv}', which is "
+                f"never updated with the lengths of the sampled masks (no '{cv} = min({cv}, len(mask))'): masks shorter than it "
+                f"keep their own length and cannot be stacked to one common size", clause="C17.4")
+    for k, (n1, var, mname) in enumerate(sorted(minima)):
+        cuts = [n2 for n2 in cfg.nodes for y in cfg.walk_node(n2) if isinstance(y, ast.Subscript) and isinstance(y.slice, ast.Slice)
+                and y.slice.lower is None and _n(y.slice.upper) == var]
+        apps = [m for m, cc in fa.calls_named("append") if cc.args and _n(cc.args[0]) == mname and fa.conds_at(m) == fa.conds_at(n1)
+                and (cfg.reachable(m, n1) or cfg.reachable(n1, m))]
+        upd_ok = mname is not None and bool(apps)
+        # the list that is cut with this minimum is the list the masks measured by it were collected into
         cut_before = bool(cuts) and bool(coll) and any(cfg.reachable(cu, co_) for cu in cuts for co_ in coll)
-        rep.decide(bool(mins) and upd_ok and cut_before, "G9.own-complements", co, f"common-length:{kind}",
-                   "running minimum over every mask, all masks cut to it before collation",
-                   f"the {kind} masks are not all cut to the minimum length over every sampled mask before collation (masks of "
-                   f"different length cannot be stacked / lose their common size)", clause="C17.4")
+        same_list = True
+        if apps and cuts:
+            inner_list = _n(fa.calls_named("append")[0][1].func.value)
+            coll_lists = set()
+            for m, cc in fa.calls_named("append"):
+                if m in apps:
+                    coll_lists.add(_n(cc.func.value))
+            # lists the per-sample lists are appended to
+            outer = {_n(cc2.func.value) for m2, cc2 in fa.calls_named("append") if cc2.args and _n(cc2.args[0]) in coll_lists}
+            cut_src = set()
+            for cu in cuts:
+                for y in cfg.walk_node(cu):
+                    if isinstance(y, ast.comprehension):
+                        cut_src |= {z.id for z in ast.walk(y.iter) if isinstance(z, ast.Name)}
+            same_list = bool(outer & cut_src) if outer and cut_src else True
+        rep.decide(upd_ok and cut_before and same_list, "G9.own-complements", co, f"common-length:{k}",
+                   "running minimum over every mask of this kind, all of them cut to it before collation",
+                   "; ".join(x for x in (None if upd_ok else f"'{var}' is not updated for every mask that is collected",
+                                         None if cut_before else f"the masks are not cut to '{var}' before collation",
+                                         None if same_list else f"the masks cut to '{var}' are not the masks it was computed "
+                                                                f"from (another kind's minimum is used)") if x) +
+                   ": masks of one kind lose their common size", clause="C17.4")
     _returns_batch(rep, fa, co, "C17.5")
     n_b = 0
     for name in ("_sample_block_mask", "_sample_block_mask_constrained"):
